@@ -41,6 +41,15 @@ CLAIMS = {
               "bool-array sums, branch boundary count = number of E ends. Tie: translator + stream S08a (the real functions vs the spec evaluated exactly)."),
         note=TB + " numpy float reductions compared within 1e-9 relative; np.pi / np.sqrt are parameters. End-to-end Network.parameters on valid maps is covered under C01/C14 streams when built.",
         ref="DESIGN.md section 6 C08", technique="Lean 4 theorems over the regenerated parameter function against a hand-written published-definition spec"),
+    "C12": dict(
+        text=("Proof (Lean 4) over a hand model of determine_crosscut_abutting_relationships: the row of a pair of sets mentions only those two sets, so adding "
+              "sets anywhere in the list (incl. empty ones) neither changes nor removes a row (C12_rows_independent, via sublist-monotonicity of combinations); "
+              "every pair of non-empty sets has its row; error count is 0 for all inputs; x / y / y-reverse equal the numbers of X-nodes meeting both sets, "
+              "Y-nodes where a trace of the first set ends, and the converse. Tie: determine_intersect is tied EXHAUSTIVELY (all 24 argument combinations); the loop "
+              "over pairs is tied by stream S12: Network.azimuth_set_relationships on valid maps x 5 set definitions (wrap-around, empty sets first/between/last) "
+              "against the model fed with the exact contacts (which pieces pass through / end at every X/Y node) from the Lean oracle."),
+        note=TB + " The buffer-0.001 'meets a trace of the set' predicates are parameters (touch/endsIn); on valid maps they are decided by the exact contacts. Set membership of a piece is taken from the implementation (C15 decides it). F2 was a genuine defect here and is repaired.",
+        ref="DESIGN.md section 6 C12", technique="Lean 4 theorems over a hand model (sublist monotonicity, counting) + exhaustive/differential correspondence with exact contacts"),
     "C14": dict(
         text=("Proof (Lean 4): node set, every node class and every branch label are invariant under permuting the noded pieces and reversing any of them "
               "(C14_routes), hence two routes whose noded pieces agree up to order/direction give equal tables, and re-extraction from the branches "
